@@ -64,6 +64,13 @@ class LDMService:
             subscriptions = self.subscriptions.copy()
         subscriptions_to_remove = set()
         for subscription in subscriptions:
+            if (
+                subscription.subscription_request.application_id
+                not in self.get_data_consumer_its_aid()
+            ):
+                # The consumer deregistered: its callback must not be invoked any more
+                subscriptions_to_remove.add(subscription)
+                continue
             search_result = self.search_data(subscription)
             if not search_result:
                 continue
@@ -451,6 +458,14 @@ class LDMService:
         """
         with self._lock:
             self.data_consumer_its_aid.discard(its_aid)
+            # A deregistered consumer loses its subscriptions (they do not come back to life if
+            # the same application registers again later)
+            for subscription in [
+                subscription for subscription in self.subscriptions
+                if subscription.subscription_request.application_id == its_aid
+            ]:
+                self.subscriptions.remove(subscription)
+                self.last_checked_subscriptions_time.pop(subscription, None)
 
     def delete_subscription(self, subscription_id: int) -> bool:
         """
